@@ -60,7 +60,7 @@ def impl_many(srcs, procs=None):
     again = [k for k, o in enumerate(out) if o.get("exc") == "hang"]
     confirmed = 0
     for k in again:
-        if confirmed >= 20:
+        if confirmed >= 4:
             break               # plenty of genuine ones: the rest is believed
         out[k] = lex_impl(srcs[k], timeout=30.0)
         confirmed += out[k].get("exc") == "hang"
